@@ -69,7 +69,11 @@ func (server *Server) HDel(conn *redis.Conn, key string, fields []string) (*redi
 	if !ok {
 		return redis.NewIntegerMessage(0), nil
 	}
-	return redis.NewIntegerMessage(hash.Del(fields)), nil
+	removed := hash.Del(fields)
+	if len(hash) == 0 {
+		db.RemoveRecord(key)
+	}
+	return redis.NewIntegerMessage(removed), nil
 }
 
 // nolint: ifshort
